@@ -7,7 +7,8 @@ from vlib import Suite, zlist, zlit, coqlist, blit, opt
 ID = "C14"
 READY = True
 RULE = ("opp: streams of 1-9 segments (valid 7/11-byte reports for configured and unconfigured boards, EOM bytes, "
-        "reports with 1-3 corrupted bytes, truncated reports, noise incl. address/command look-alikes, 10-EOM flushes, "
+        "reports with 1-3 corrupted bytes, two-byte corruptions that keep the CRC valid (e2 = T^k(e1)), truncated reports, "
+        "noise incl. address/command look-alikes and CRC-valid inventory/version/config replies, 10-EOM flushes, "
         "and the refutation-witness family) cut into random reads down to single bytes; non-trivial = at least one cut "
         "and at least one report delivered.  reader: FAST (CR) / PKONE ('E') streams of 1-8 messages incl. empty ones, "
         "bytes that can never be UTF-8, optional truncation, random reads; non-trivial = more than one read and a "
@@ -15,50 +16,83 @@ RULE = ("opp: streams of 1-9 segments (valid 7/11-byte reports for configured an
         "_socket_writer task on an asyncio loop; non-trivial = a confirmed message and > 2 operations.  fastsw: 2-10 "
         "SA: snapshots (incl. snapshots identical to an earlier one / to the baseline) interleaved with -L:/L: events for "
         "configured and unknown switch numbers, fed as bytes to the real FastNetNeuronCommunicator of a machine booted "
-        "like test_Fast_Neuron (real FAST platform, real SwitchController); non-trivial = snapshot and event in one case.  retry: "
+        "like test_Fast_Neuron (real FAST platform, real SwitchController); non-trivial = snapshot and event in one case.  "
+        "fastbytes: the same reports as ONE byte stream with non-report messages and header-corrupted reports interleaved, "
+        "truncated anywhere and cut into random reads; states after every read; non-trivial = > 1 read, snapshot and event.  "
+        "route: 1-8 messages (every header / ignored message of every FAST processor, near misses, short and empty "
+        "messages) through each of the nine real communicator classes with recording processors, the writer paused on a "
+        "header (often one of the processor's ignored messages) before the reads, random reads; PKONE "
+        "messages_in_flight/send_ready for random counters; non-trivial = > 1 read and a processor call.  flow: 2-12 "
+        "operations (send_and_forget, send_with_confirmation, send_and_wait_for_response, "
+        "send_and_wait_for_response_processed with timeouts 33..175/64 s and max_retries -1..3 as concurrent tasks, incoming "
+        "messages: answers/confirmations of earlier commands - possibly twice -, ignored, unknown and short messages, i.e. "
+        "confirmations and responses are lost, late or duplicated; clock advances of 1-5 s) followed by a closing phase that "
+        "delivers the answers to all QUERIES repeatedly (lost confirmations stay lost), on mpf.tests.loop.TimeTravelLoop; "
+        "histories in which two wait_for deadlines or a deadline and an operation coincide are not generated; "
+        "non-trivial = a query, an incoming message and > 3 operations.  retry: "
         "send_and_wait_for_response_processed with lost / late / timely responses on the virtual-time loop (oracle only)")
 TRUSTED_BASE = [
     "Coq 8.16.1 kernel (coqc); vm_compute for the finite sweeps over bytes (256 and 256x256 cases, lifted to "
-    "universally quantified lemmas through forallb_forall), for refutation witnesses and for evaluating the model in "
+    "universally quantified lemmas through forallb_forall: table = polynomial 0x07, injectivity, GF(2)-linearity of the "
+    "table, no 8-bit burst equals a table image), for refutation witnesses and for evaluating the model in "
     "the correspondence run; no native_compute",
     "axioms: none (every Print Assumptions is 'Closed under the global context')",
     "translator harness/props/c14.py::translate (Python ast -> coq/C14/gen/Crc.v): CRC8_LOOKUP literal, the initial "
     "value and update shape of both CRC loops, READ_GEN2_INP_CMD / READ_MATRIX_INP / EOM_CMD; fail-closed",
-    "hand-written model coq/C14/Model.v tied to /repo by correspondence on every run: OPPSerialCommunicator._parse_msg + "
-    "OppHardwarePlatform.process_received_message/read_gen2_inp_resp/read_matrix_inp_resp, "
-    "FastSerialCommunicator.parse_incoming_raw_bytes/_dispatch_incoming_msg/_socket_writer/pause_sending, "
-    "PKONESerialCommunicator._parse_msg, all driven on real objects with mocked platform/machine; "
-    "FastNetNeuronCommunicator._process_sa/update_switches_from_hw_data/_process_switch_open/_closed + "
+    "hand-written models coq/C14/Model.v, Flow.v, Links.v, Route2.v tied to /repo by correspondence on every run: "
+    "OPPSerialCommunicator._parse_msg + OppHardwarePlatform.process_received_message/read_gen2_inp_resp/read_matrix_inp_resp, "
+    "FastSerialCommunicator.parse_incoming_raw_bytes/_dispatch_incoming_msg/_socket_writer/pause_sending/_resume_sending/"
+    "send_and_forget/send_with_confirmation/send_and_wait_for_response/send_and_wait_for_response_processed/"
+    "done_processing_msg_response, the message_processors keys and IGNORED_MESSAGES of the nine FAST communicator classes, "
+    "PKONESerialCommunicator._parse_msg (messages and messages_in_flight/send_ready), all driven on real objects with mocked "
+    "platform/machine; FastNetNeuronCommunicator._process_sa/update_switches_from_hw_data/_process_switch_open/_closed + "
     "SwitchController.process_switch_by_num/process_switch_obj on a machine booted by mpf.tests.test_Fast_Neuron.TestFastNeuron.setUp "
     "(its mock serial boards and tests/machine_files/fast/config/neuron.yaml are part of the rig)",
     "CPython bytes.decode() (model domain: a message decodes iff all bytes < 0x80; generators never emit 0xC2..0xF4), "
-    "asyncio Queue/Event/Task scheduling (writer), mpf.tests.loop.TimeTravelLoop (retry suite)",
-    "independent Python reference pieces used by the oracles only: bitwise CRC-8 (poly 0x07), byte-at-a-time framing automaton",
+    "int(s, 16) / bytearray.fromhex on plain upper-case hex, asyncio Queue/Event/Task/wait_for scheduling (Event.set() "
+    "releases all current waiters; Event.wait() on a set event does not suspend), mpf.tests.loop.TimeTravelLoop "
+    "(flow and retry suites)",
+    "independent Python reference pieces used by the oracles only: bitwise CRC-8 (poly 0x07), byte-at-a-time framing "
+    "automaton, the expected FAST header tables (ROUTE_TABLE), a stream splitter for the FAST switch reports, and "
+    "flow_ref: a simulation of the command channel as found, used ONLY to decide whether a failure of the property "
+    "predicate is exactly what the recorded defects produce (known finding) or something else (VIOLATION)",
 ]
 ASSUMPTIONS = [
     "serial transport, OS buffering and serial_asyncio are outside the model; reads are arbitrary splits of the byte stream",
     "OPP: the _initial handlers (used during _identify_connection) and readuntil-based start-up are not modelled; "
     "matrix cards start from an integer old_state (the code's initial [0, 0] list would raise TypeError on the first "
     "change report if the initial read-out had been lost)",
-    "switch state is observed as OPPInputCard.old_state and the process_switch_by_num calls, not through SwitchController",
-    "FAST writer: one step of the model = one operation followed by running the loop until idle",
+    "OPP switch state is observed as OPPInputCard.old_state and the process_switch_by_num calls; their effect on the "
+    "SwitchController is a theorem about the fold of these calls (opp_switch_state_last_report), not an observation",
+    "FAST command channel: one step of the model = one operation followed by running the loop until idle; time in 1/64 s; "
+    "histories with coinciding deadlines are excluded (asyncio does not promise an order for equal deadlines); message "
+    "processors are recorders that call done_processing_msg_response() or not as the real ones do ('XX:' and 'ID:' are "
+    "the real base-class processors)",
     "FAST switch reports: SA: snapshots carry 14 bytes (all 112 switch numbers; a shorter snapshot raises KeyError in "
-    "update_switches_from_hw_data for a configured switch beyond it); the event loop is not run between reports "
+    "update_switches_from_hw_data for a configured switch beyond it) in plain upper-case hex with one comma; -L:/L: carry "
+    "two hex digits; the event loop is not run between reports "
     "(switch state is updated synchronously; queued switch events are dropped so that the scripted mock board is not "
-    "driven into games); Nano -N:/N: share the handlers and are not driven separately",
+    "driven into games); Nano -N:/N: share the handlers: routed in suite `route`, decode proved for any command letter",
+    "PKONE in-flight bookkeeping is driven with a read task present (without one send_ready is always set)",
 ]
-LEVEL_TEXT = ("Machine-checked proof (Coq) over executable models of the three incremental decoders and the FAST writer: "
-              "the OPP loop refines a byte-at-a-time automaton for every split into reads, CRC-8 (table translated from "
-              "the source, proved equal to polynomial 0x07) detects every single-byte change of a frame of any length, "
-              "bad-CRC frames never change state, the state is the last valid report per board, ten EOM bytes always "
-              "resynchronise; FAST/PKONE delimiter framing is split independent; queue order is preserved.  Three parts "
-              "of the property are refuted for the code as found (theorems with witnesses, reproduced on the code on "
-              "every run as known findings): OPP can stay out of step for ever, a non-UTF-8 byte ends the FAST/PKONE "
-              "reader, the FAST writer never waits for a confirmation / never retries.")
-LEVEL_NOTE = ("Trusted: Coq kernel + vm_compute, no axioms; translator for the CRC table; hand model validated by "
+LEVEL_TEXT = ("Machine-checked proof (Coq) over executable models of the three incremental decoders, of the whole FAST command "
+              "channel (writer, confirmations, no_response_waiting gate, wait_for retry loop, done_waiting) and of the header "
+              "tables of all FAST processors: the OPP loop refines a byte-at-a-time automaton for every split into reads, "
+              "CRC-8 (table translated from the source, proved equal to polynomial 0x07 and GF(2)-linear) detects every "
+              "single-byte change and every burst of up to 8 bits, two-byte corruption is characterised exactly; bad-CRC "
+              "frames never change state, state and SwitchController view are the last valid report per board, from bytes, "
+              "for every split and every cut (OPP and FAST); ten EOM bytes always resynchronise; FAST/PKONE delimiter "
+              "framing, FAST routing and the PKONE in-flight counter are split independent; queue order is preserved for "
+              "all histories; lost/duplicated/late confirmations provably change nothing that is written.  Parts of the "
+              "property are refuted for the code as found (theorems with witnesses or for all parameters, reproduced on "
+              "the code on every run as known findings): OPP can stay out of step for ever, a non-UTF-8 byte ends the "
+              "FAST/PKONE reader, the FAST writer never waits for a confirmation, a lost response is never re-sent and "
+              "a _processed command can be dropped unsent.")
+LEVEL_NOTE = ("Trusted: Coq kernel + vm_compute, no axioms; translator for the CRC table; hand models validated by "
               "differential runs against the working tree on every check; real serial timing is outside the model.")
-TECHNIQUE = ("Coq proof (refinement to a byte automaton, induction over streams, finite sweeps lifted by forallb) over "
-             "translated CRC table + hand-written model; differential correspondence by vm_compute; direct oracles")
+TECHNIQUE = ("Coq proof (refinement to a byte automaton, induction over streams and histories, invariants, erasure "
+             "simulation for confirmations, finite sweeps lifted by forallb) over translated CRC table + hand-written "
+             "models; differential correspondence by vm_compute; direct oracles")
 DESIGN_REF = "DESIGN.md section 3, C14"
 
 
@@ -152,6 +186,13 @@ def crc8_ref(bs):
     return c
 
 
+def crc_tab_ref(c):
+    """one table look-up = eight shifts of the polynomial division, initial value 0"""
+    for _ in range(8):
+        c = ((c << 1) ^ 0x07) & 0xff if c & 0x80 else (c << 1) & 0xff
+    return c
+
+
 def is_addr(b):
     return (b & 0xe0) == 0x20
 
@@ -232,17 +273,38 @@ def gen_opp(rng, tier, i):
                 segs.append(["valid", mk_frame(rng, prev)])
                 if rng.random() < 0.5:
                     segs.append(["eom", [0xff] * rng.choice([1, 1, 2])])
-            elif r < 0.67:
+            elif r < 0.64:
                 f = mk_frame(rng, dict(prev))
                 for _ in range(rng.choice([1, 1, 1, 2, 3])):
                     k = rng.randrange(len(f))
                     f[k] = rng.choice([f[k] ^ (1 << rng.randrange(8)), rng.randrange(256), rng.choice(SPICE)])
                 segs.append(["corrupt", f])
+            elif r < 0.67:
+                # two corrupted bytes that the CRC cannot see (theorem two_byte_corruption_exact: e2 = T^k(e1)), data
+                # bytes or data + CRC byte: for the decoder this IS a valid report
+                f = mk_frame(rng, prev)
+                i = rng.randrange(2, len(f) - 1)
+                j = rng.randrange(i + 1, len(f))
+                e = rng.randrange(1, 256)
+                f[i] ^= e
+                for _ in range(j - i):
+                    e = crc_tab_ref(e)
+                f[j] ^= e
+                prev[("g" if f[1] == 0x08 else "m", f[0])] = f[2:-1]
+                segs.append(["valid", f])
             elif r < 0.75:
                 f = mk_frame(rng, dict(prev))
                 segs.append(["trunc", f[:rng.randrange(1, len(f))]])
-            elif r < 0.87:
+            elif r < 0.84:
                 segs.append(["noise", [rng.choice(SPICE + [rng.randrange(256)]) for _ in range(rng.choice([1, 1, 2, 3, 6, 12]))]])
+            elif r < 0.87:
+                # CRC-valid replies of the start-up exchange (inventory, firmware version, gen2 config, serial number)
+                # arriving late: the running parser must treat them as junk and find the next report again
+                a = rng.choice([0x20, 0x21, 0x22])
+                body = rng.choice([[0xf0, 0x20, 0x21, 0x22, 0xff], [a, 0x02, 2, 3, 0, rng.randrange(256)],
+                                   [a, 0x0d] + [rng.choice([0, 1, 2, 0x20]) for _ in range(16)],
+                                   [a, 0x00, 0, 0, 0, rng.randrange(256)]])
+                segs.append(["noise", body if body[0] == 0xf0 else body + [crc8_ref(body)]])
             else:
                 segs.append(["flush", [0xff] * 10])
     stream = [b for _, s in segs for b in s]
@@ -330,7 +392,7 @@ def coq_opp(case, out):
            (coqlist(zlist(f) for f in o["frames"]),
             coqlist("(%s,%s,%s)" % (zlit(a), zlit(i), zlit(s)) for a, i, s in o["events"]),
             amap(o["inp"]), amap(o["mat"]), zlist(o["buf"]), blit(o["lost"])))
-    return "(%s, %s)" % (inp, exp)
+    return "(mk_oc %s %s)" % (inp, exp)
 
 
 def expected_from_frames(frames, init):
@@ -431,7 +493,8 @@ def describe_opp(case):
     return "%s chunks=%s" % ("+".join(k[0] for k in kinds), "1" if n == 0 else "2-5" if n < 5 else ">5")
 
 
-HDR_OPP = "From C14 Require Import Crc Model.\nDefinition run := opp_run.\nDefinition out_eqb := opp_out_eqb.\n"
+HDR_OPP = ("From C14 Require Import Crc Model.\nDefinition run := opp_run.\nDefinition out_eqb := opp_out_eqb.\n"
+           "Definition mk_oc (i : (amap * amap) * list (list Z)) (o : opp_out) := (i, o).\n")
 
 
 # ================================================================================================
@@ -542,9 +605,10 @@ def coq_reader(case, out):
     d = 13 if case["which"] == "fast" else 69
     dead = o["dead"] is not None
     ign = "[]" if case["which"] == "fast" else coqlist([zlist(b"PWD")])
-    return "(((%d, %s), %s), ((%s, %s), %s))" % (d, ign, coqlist(zlist(c) for c in case["chunks"]),
-                                           coqlist(zlist(m) for m in o["msgs"]), blit(dead),
-                                           zlist([] if dead else o["buf"]))
+    # mk_rc has typed arguments: an empty list is then typed even when every case of a (small) shard has one
+    return "(mk_rc %d %s %s %s %s %s)" % (d, ign, coqlist(zlist(c) for c in case["chunks"]),
+                                         coqlist(zlist(m) for m in o["msgs"]), blit(dead),
+                                         zlist([] if dead else o["buf"]))
 
 
 def oracle_reader(case, out):
@@ -600,7 +664,9 @@ def describe_reader(case):
     return "%s chunks=%s" % (case["which"], "1" if n == 1 else "2-5" if n <= 5 else ">5")
 
 
-HDR_READER = "From C14 Require Import Crc Model.\nDefinition run := reader_run.\nDefinition out_eqb := reader_out_eqb.\n"
+HDR_READER = ("From C14 Require Import Crc Model.\nDefinition run := reader_run.\nDefinition out_eqb := reader_out_eqb.\n"
+              "Definition mk_rc (d : Z) (ign chunks msgs : list (list Z)) (dead : bool) (buf : list Z) :=\n"
+              "  (((d, ign), chunks), ((msgs, dead), buf)).\n")
 
 
 # ================================================================================================
@@ -670,7 +736,7 @@ def coq_writer(case, out):
     ops = coqlist("(Enq %d %s)" % (o[1], opt(o[2], lambda h: zlist(h.encode()))) if o[0] == "enq"
                   else "(Rx %s)" % zlist(o[1][:3].encode()) for o in case["ops"])
     exp = coqlist("(%s, %s)" % (zlist(n), blit(p)) for n, p in out["trace"])
-    return "((false, %s), %s)" % (ops, exp)
+    return "(mk_wc %s %s)" % (ops, exp)
 
 
 def oracle_writer(case, out):
@@ -714,7 +780,403 @@ def nontrivial_writer(case, out):
     return any(o[0] == "enq" and o[2] for o in case["ops"]) and len(case["ops"]) > 2
 
 
-HDR_WRITER = "From C14 Require Import Crc Model.\nDefinition run := writer_run.\nDefinition out_eqb := writer_out_eqb.\n"
+HDR_WRITER = ("From C14 Require Import Crc Model.\nDefinition run := writer_run.\nDefinition out_eqb := writer_out_eqb.\n"
+              "Definition mk_wc (ops : list wop) (exp : list (list Z * bool)) := ((false, ops), exp).\n")
+
+
+# ================================================================================================
+# FAST command channel as a whole (suite `flow`): send_and_forget / send_with_confirmation / send_and_wait_for_response /
+# send_and_wait_for_response_processed mixed with incoming messages (confirmations and responses that are lost, late or
+# duplicated) and the passage of time, against the real FastSerialCommunicator on mpf.tests.loop.TimeTravelLoop.
+# Time unit: 1/64 s (exact in floats).  Model: coq/C14/Flow.v.
+FLOW_IGNORED = ["WD:P", "TL:P"]
+# header -> does the processor call done_processing_msg_response()   ('XX:' and 'ID:' are the real base processors)
+FLOW_PROCS = [["XX:", False], ["ID:", True], ["SA:", True], ["SL:", True], ["DL:", True], ["CH:", True],
+              ["-L:", False], ["/L:", False], ["!B:", False]]
+FLOW_PROC = dict((h, d) for h, d in FLOW_PROCS)
+FLOW_CONF = ["SL:P", "DL:", "TL:P", "AB:", "RA:P", "SL:P", "DL:P"]       # send_with_confirmation headers
+FLOW_SAW = ["SA:", "SL:", "DL:", "CH:", "ID:", "SA:", "SL:0B"]            # headers of queries (all have processors)
+FLOW_RESP = {"SA:": "SA:0E,2900", "SL:": "SL:0B,01,02,04", "DL:": "DL:P", "CH:": "CH:P", "ID:": "ID:NET FP-CPU-2000 2.06",
+             "TL:": "TL:1", "AB:": "AB:P", "RA:": "RA:P"}
+FLOW_RX = ["SA:0E,2900", "SL:P", "SL:0B,01", "DL:P", "DL:F", "CH:P", "ID:NET FP-CPU-2000 2.06", "-L:0B", "/L:0B", "!B:02",
+           "XX:F", "WD:P", "TL:P", "TL:1", "AB:P", "RA:P", "A", "S", "ZZ:1", "AB", "\x11\x11!"]
+
+
+def _flow_closing(body):
+    """Closing phase: the answers to every query header, (number of queries + 1) times with a second in between.
+    Confirmations of send_with_confirmation commands are NOT delivered here: a lost confirmation stays lost."""
+    hs = []
+    for o in body:
+        if o[0] in ("saw", "sawp") and o[2][:3] not in hs:
+            hs.append(o[2][:3])
+    k = len([o for o in body if o[0] in ("saw", "sawp")]) + 1
+    out = []
+    for _ in range(min(k, 6)):
+        for h in hs:
+            out.append(["rx", FLOW_RESP.get(h, h + "P")])
+        if any(h not in FLOW_PROC for h in hs):
+            out.append(["rx", "-L:01"])
+        out.append(["adv", 64])
+    return out
+
+
+def _flow_all_ops(case):
+    return case["ops"] + _flow_closing(case["ops"])
+
+
+def _flow_time_ties(ops):
+    """True when two wait_for deadlines could coincide with each other or with an operation (order would then be up
+    to asyncio's heap): such histories are not generated and not fed to the model"""
+    now, horizon = 0, sum(o[1] for o in ops if o[0] == "adv")
+    seen = set()
+    for o in ops:
+        if o[0] == "adv":
+            now += o[1]
+        elif o[0] == "sawp":
+            t, a = now + o[3], 0
+            while t <= horizon + 64 and (o[4] == -1 or a <= o[4]) and a < 400:
+                if t % 64 == 0 or t in seen:
+                    return True
+                seen.add(t)
+                t += o[3]
+                a += 1
+    return False
+
+
+def gen_flow(rng, tier, i):
+    for _ in range(50):
+        ops, m = [], 0
+        for _ in range(rng.randint(2, 12)):
+            r = rng.random()
+            if r < 0.12:
+                m += 1
+                ops.append(["enq", m, None])
+            elif r < 0.30:
+                m += 1
+                ops.append(["enq", m, rng.choice(FLOW_CONF)])
+            elif r < 0.48:
+                m += 1
+                ops.append(["saw", m, rng.choice(FLOW_SAW)])
+            elif r < 0.60:
+                m += 1
+                ops.append(["sawp", m, rng.choice(FLOW_SAW), rng.choice([33, 65, 70, 97, 130, 161]) + 2 * rng.randrange(8),
+                            rng.choice([0, 0, 1, 2, 3, -1])])
+            elif r < 0.88:
+                # an incoming message: often the answer to / confirmation of something sent earlier (possibly twice),
+                # otherwise anything
+                prev = [o[2] for o in ops if o[0] in ("enq", "saw", "sawp") and o[2]]
+                if prev and rng.random() < 0.6:
+                    h = rng.choice(prev)[:3]
+                    ops.append(["rx", FLOW_RESP.get(h, h + "P")])
+                    if rng.random() < 0.15:
+                        ops.append(["rx", FLOW_RESP.get(h, h + "P")])
+                else:
+                    ops.append(["rx", rng.choice(FLOW_RX)])
+            else:
+                ops.append(["adv", 64 * rng.choice([1, 1, 2, 3, 5])])
+        case = {"ops": ops}
+        if not _flow_time_ties(_flow_all_ops(case)):
+            return case
+    return {"ops": [o for o in ops if o[0] != "sawp"]}
+
+
+def run_flow(case):
+    import asyncio
+    from mpf.tests.loop import TimeTravelLoop
+    from mpf.platforms.fast.communicators.base import FastSerialCommunicator
+    loop = TimeTravelLoop()
+    asyncio.set_event_loop(loop)
+    writes, fin, disp = [], [], []
+    try:
+        class C(FastSerialCommunicator):
+            IGNORED_MESSAGES = list(FLOW_IGNORED)
+        import logging
+        from unittest.mock import MagicMock
+        platform = MagicMock()
+        platform.machine.is_shutting_down = False
+        platform.debug = False
+        c = C(platform, "net", {"debug": False, "watchdog": None, "port": ["x"], "baud": 1})
+        c.log = logging.getLogger("c14.flow")
+        c.log.disabled = True
+        c.port_debug = False
+        c.ignore_decode_errors = False
+
+        class W:
+            def write(self, msg):
+                writes.append(bytes(msg))
+        c.writer = W()
+        for h, calls_done in FLOW_PROCS:
+            if h in ("XX:", "ID:"):
+                continue
+            if calls_done:
+                c.message_processors[h] = lambda msg, h=h: (disp.append(h), c.done_processing_msg_response())
+            else:
+                c.message_processors[h] = lambda msg, h=h: disp.append(h)
+        wt = loop.create_task(c._socket_writer())
+        tasks, trace, err = [], [], None
+
+        def spawn(m, coro):
+            t = loop.create_task(coro)
+            t.add_done_callback(lambda t, m=m: fin.append(m) if not t.cancelled() else None)
+            tasks.append(t)
+        try:
+            for op in _flow_all_ops(case):
+                nb, fb = len(writes), len(fin)
+                k = op[0]
+                if k == "enq":
+                    if op[2] is None:
+                        c.send_and_forget("M%d" % op[1])
+                    else:
+                        c.send_with_confirmation("M%d" % op[1], op[2])
+                elif k == "saw":
+                    spawn(op[1], c.send_and_wait_for_response("M%d" % op[1], op[2]))
+                elif k == "sawp":
+                    spawn(op[1], c.send_and_wait_for_response_processed("M%d" % op[1], op[2], timeout=op[3] / 64,
+                                                                        max_retries=op[4]))
+                elif k == "rx":
+                    c.parse_incoming_raw_bytes(op[1].encode() + b"\r")
+                elif k == "adv":
+                    loop.run_until_complete(asyncio.sleep(op[1] / 64))
+                for _ in range(8):
+                    loop.run_until_complete(asyncio.sleep(0))
+                trace.append({"w": [int(w[1:-1]) for w in writes[nb:]], "f": fin[fb:],
+                              "p": c.pause_sending_until if c.pause_sending_flag.is_set() else None,
+                              "n": bool(c.no_response_waiting.is_set()), "d": bool(c.done_waiting.is_set()),
+                              "q": c.send_queue.qsize()})
+            for t in tasks + [wt]:
+                if t.done() and not t.cancelled() and t.exception():
+                    err = type(t.exception()).__name__
+        except Exception as e:      # noqa
+            err = "%s: %s" % (type(e).__name__, e)
+        for t in tasks + [wt]:
+            t.cancel()
+            try:
+                loop.run_until_complete(t)
+            except BaseException:   # noqa
+                pass
+        return {"trace": trace, "err": err, "now": round(loop.time() * 64)}
+    finally:
+        asyncio.set_event_loop(None)
+        loop.close(ignore_running_tasks=True)
+
+
+def flow_ref(ops):
+    """Independent Python simulation of the command channel AS FOUND (used only to classify a failure of the property
+    predicate as one of the recorded defects: the failure is 'known' only if the implementation did exactly this)."""
+    q_written, paused, nrw, waiters, dw, dwait, now = [], None, True, [], False, [], 0
+    trace = []
+    st = {"fin": [], "new": []}
+
+    pending = []
+
+    def put(m, u):
+        pending.append((m, u))
+
+    def drain():
+        nonlocal paused
+        while pending:                       # the writer task runs when the caller yields; it never blocks
+            m, u = pending.pop(0)
+            st["new"].append(m)
+            if u is not None:
+                paused = u
+
+    def await_done(m):
+        if dw:
+            st["fin"].append(m)
+        else:
+            dwait.append(m)
+
+    def gate(w):
+        nonlocal nrw
+        nrw = False
+        put(w["m"], w["u"])
+        if w["timed"]:
+            await_done(w["m"])
+        else:
+            st["fin"].append(w["m"])
+
+    def attempt(w):
+        if nrw:
+            gate(w)
+        else:
+            waiters.append(w)
+    gave_up = []
+    for op in ops:
+        st["fin"], st["new"] = [], []
+        k = op[0]
+        if k == "enq":
+            put(op[1], op[2])
+        elif k == "saw":
+            attempt({"m": op[1], "u": op[2], "timed": False})
+        elif k == "sawp":
+            dw = False
+            attempt({"m": op[1], "u": op[2], "timed": True, "dl": now + op[3], "tmo": op[3], "used": 0, "max": op[4]})
+        elif k == "rx":
+            msg = op[1]
+            if msg not in FLOW_IGNORED:
+                h = msg[:3]
+                if h in FLOW_PROC:
+                    if FLOW_PROC[h]:
+                        dw = True
+                        st["fin"] += dwait
+                        dwait = []
+                    nrw = True
+                    ws, waiters = waiters, []
+                    for w in ws:
+                        gate(w)
+                if paused is not None and paused.startswith(h):
+                    paused = None
+        elif k == "adv":
+            target = now + op[1]
+            while True:
+                due = [w for w in waiters if w["timed"] and w["dl"] <= target]
+                if not due:
+                    break
+                w = min(due, key=lambda x: x["dl"])
+                waiters.remove(w)
+                w = dict(w, used=w["used"] + 1)
+                if w["max"] == -1 or w["used"] <= w["max"]:
+                    w["dl"] += w["tmo"]
+                    attempt(w)
+                else:
+                    gave_up.append(w["m"])
+                    await_done(w["m"])
+                drain()
+            now = target
+        drain()
+        trace.append({"w": st["new"], "f": st["fin"], "p": paused, "n": nrw, "d": dw, "q": 0})
+    return trace, gave_up
+
+
+FLOW_CFG = "{| f_ignored := %s; f_procs := %s |}" % (
+    coqlist(zlist(x.encode()) for x in FLOW_IGNORED),
+    coqlist("(%s, %s)" % (zlist(h.encode()), blit(d)) for h, d in FLOW_PROCS))
+
+
+def coq_flow(case, out):
+    ops = _flow_all_ops(case)
+    if out["err"] or _flow_time_ties(ops) or len(out["trace"]) != len(ops):
+        return None
+
+    def cop(o):
+        if o[0] == "enq":
+            return "(XEnq %d %s)" % (o[1], opt(o[2], lambda h: zlist(h.encode())))
+        if o[0] == "saw":
+            return "(XSaw %d %s)" % (o[1], zlist(o[2].encode()))
+        if o[0] == "sawp":
+            return "(XSawp %d %s %d %s)" % (o[1], zlist(o[2].encode()), o[3], zlit(o[4]))
+        if o[0] == "rx":
+            return "(XRx %s)" % zlist(o[1].encode())
+        return "(XAdv %d)" % o[1]
+    exp = coqlist("{| xo_w := %s; xo_f := %s; xo_p := %s; xo_n := %s; xo_d := %s; xo_q := %d |}" %
+                  (zlist(t["w"]), zlist(t["f"]), opt(t["p"], lambda h: zlist(h.encode())), blit(t["n"]), blit(t["d"]),
+                   t["q"]) for t in out["trace"])
+    return "(mk_fl %s %s)" % (coqlist(cop(o) for o in ops), exp)
+
+
+def oracle_flow(case, out):
+    """The property's predicate on what was written to the port (independent of the Coq model):
+       order kept / nothing written twice; at most one unconfirmed command in flight; every command is written once the
+       answers to all queries have come in (a lost CONFIRMATION must not block anything); a lost RESPONSE is re-sent."""
+    if out["err"]:
+        return [{"sig": "fast-flow-exception", "what": "the command channel raised " + str(out["err"])}]
+    body = case["ops"]
+    ops = _flow_all_ops(case)
+    trace = out["trace"]
+    fails = []
+    ref, gave_up = flow_ref(ops)
+    as_found = [t["w"] for t in ref] == [t["w"] for t in trace]
+    kind = {o[1]: o for o in ops if o[0] in ("enq", "saw", "sawp")}
+    written = [m for t in trace for m in t["w"]]
+    # -- order / duplicates
+    once = [m for m in written if written.count(m) > 1 and not (kind[m][0] == "sawp" and kind[m][4] != 0)]
+    if once:
+        fails.append({"sig": "fast-flow-written-twice", "what": "command %d written more than once" % once[0]})
+    for k in ("enq", "saw"):
+        seq = [m for m in written if kind[m][0] == k]
+        dedup = [m for i, m in enumerate(seq) if m not in seq[:i]]
+        if dedup != sorted(dedup):
+            fails.append({"sig": "fast-flow-order", "what": "%s commands written out of order: %r" % (k, dedup)})
+    # -- at most one unconfirmed command in flight
+    awaiting, early = None, None
+    for op, t in zip(ops, trace):
+        if op[0] == "rx" and awaiting is not None and op[1] not in FLOW_IGNORED and awaiting.startswith(op[1][:3]):
+            awaiting = None
+        for m in t["w"]:
+            if awaiting is not None and early is None:
+                early = m
+            if kind[m][2] is not None:
+                awaiting = kind[m][2]
+    if early is not None:
+        if as_found:
+            fails.append({"sig": "fast-writer-does-not-wait",
+                          "what": "command %d is written while a confirmation is still awaited: _socket_writer awaits "
+                                  "pause_sending_flag.wait() on an Event that is SET while paused, so it never blocks" % early})
+        else:
+            fails.append({"sig": "fast-writer-early-other", "what": "command %d is written while a confirmation is awaited" % early})
+    # -- every command is eventually written (closing phase delivered the answers to all queries repeatedly)
+    missing = [m for m in kind if m not in written]
+    if missing:
+        if as_found and all(kind[m][0] == "sawp" and m in gave_up for m in missing):
+            fails.append({"sig": "fast-sawp-gives-up-unsent",
+                          "what": "send_and_wait_for_response_processed(%d): all wait_for timeouts ran out while the answer to "
+                                  "an EARLIER query was outstanding; the command is never queued and the caller goes on to "
+                                  "await done_waiting" % missing[0]})
+        else:
+            fails.append({"sig": "fast-command-never-written",
+                          "what": "command %d was never written although the answers to all queries arrived (repeatedly): "
+                                  "the command channel is blocked" % missing[0]})
+    # -- a lost response is re-sent as configured (judged at the end of the body, before the closing answers)
+    now, wtime, answered = 0, {}, {}
+    for op, t in list(zip(ops, trace))[:len(body)]:
+        if op[0] == "adv":
+            now += op[1]
+        if op[0] == "rx" and op[1] not in FLOW_IGNORED:
+            for m, tw in wtime.items():         # commands written BEFORE this message came in
+                if kind[m][0] == "sawp" and kind[m][2].startswith(op[1][:3]) and m not in answered:
+                    answered[m] = now
+        for m in t["w"]:
+            wtime.setdefault(m, now)
+    for m, tw in wtime.items():
+        o = kind[m]
+        if o[0] != "sawp" or o[4] == 0 or m in answered:
+            continue
+        due = (now - tw) // o[3]
+        want = 1 + (due if o[4] == -1 else min(due, o[4]))
+        got = len([x for t in trace[:len(body)] for x in t["w"] if x == m])
+        if got < want:
+            if as_found and got == 1:
+                fails.append({"sig": "fast-lost-response-not-retried",
+                              "what": "send_and_wait_for_response_processed(%d): no answer for %d/64 s (timeout %d/64 s, "
+                                      "max_retries %d) and the command was written once only" % (m, now - tw, o[3], o[4])})
+            else:
+                fails.append({"sig": "fast-retry-other", "what": "command %d: %d transmissions, %d wanted" % (m, got, want)})
+            break
+    return fails
+
+
+def shrink_flow(case):
+    ops = case["ops"]
+    for i in range(len(ops)):
+        yield {"ops": ops[:i] + ops[i + 1:]}
+    for i, o in enumerate(ops):
+        if o[0] == "sawp":
+            yield {"ops": ops[:i] + [["saw", o[1], o[2]]] + ops[i + 1:]}
+
+
+def nontrivial_flow(case, out):
+    ks = [o[0] for o in case["ops"]]
+    return ("saw" in ks or "sawp" in ks) and "rx" in ks and len(ks) > 3
+
+
+def describe_flow(case):
+    ks = set(o[0] for o in case["ops"])
+    return "+".join(sorted(k for k in ks))
+
+
+HDR_FLOW = ("From C14 Require Import Crc Model Flow.\nDefinition flow_cfg : fcfg := %s.\n"
+            "Definition run := flow_run.\nDefinition out_eqb := flow_out_eqb.\n"
+            "Definition mk_fl (ops : list xop) (exp : list xobs) := ((flow_cfg, ops), exp).\n" % FLOW_CFG)
 
 
 # ================================================================================================
@@ -799,23 +1261,33 @@ SA_BYTES = 14
 
 
 def fastsw_init():
+    """boot the Neuron machine once per worker.  Never raises: a tree on which the machine no longer boots (e.g. because
+    the command channel blocks during init) must be REPORTED by the oracle, not respawn pool workers for ever."""
+    if "rig" in _FS or "boot_error" in _FS:
+        return
     import logging
     logging.disable(logging.CRITICAL)
-    from mpf.tests.test_Fast_Neuron import TestFastNeuron
+    try:
+        from mpf.tests.test_Fast_Neuron import TestFastNeuron
 
-    class R(TestFastNeuron):
-        def runTest(self):
-            pass
-    r = R("runTest")
-    r.setUp()
-    r.expected_duration = 1e9
-    if r.startup_error:
-        raise RuntimeError("FAST neuron rig did not boot: %r" % (r.startup_error,))
-    p = r.machine.hardware_platforms["fast"]
-    _FS["rig"] = r
-    _FS["platform"] = p
-    _FS["comm"] = p.serial_connections["net"]
-    _FS["sws"] = sorted([sw for sw in r.machine.switches.values() if sw.platform == p], key=lambda sw: sw.hw_switch.number)
+        class R(TestFastNeuron):
+            def runTest(self):
+                pass
+        r = R("runTest")
+        r.setUp()
+        r.expected_duration = 1e9
+        if r.startup_error:
+            raise RuntimeError("startup_error %r" % (r.startup_error,))
+        p = r.machine.hardware_platforms["fast"]
+        _FS["platform"] = p
+        _FS["comm"] = p.serial_connections["net"]
+        _FS["sws"] = sorted([sw for sw in r.machine.switches.values() if sw.platform == p], key=lambda sw: sw.hw_switch.number)
+        _FS["rig"] = r
+    except BaseException as e:      # noqa
+        if isinstance(e, (KeyboardInterrupt, SystemExit)):
+            raise
+        _FS["boot_error"] = "FAST Neuron machine (mpf.tests.test_Fast_Neuron setUp) did not boot: %s: %s" % (
+            type(e).__name__, str(e)[:300])
 
 
 def gen_fastsw(rng, tier, i):
@@ -847,8 +1319,9 @@ def _fs_states():
 
 
 def run_fastsw(case):
-    if "rig" not in _FS:
-        fastsw_init()
+    fastsw_init()
+    if "boot_error" in _FS:
+        return {"init": [], "trace": [], "err": _FS["boot_error"], "final": [], "hw": []}
     comm, sws = _FS["comm"], _FS["sws"]
     # make the case self-contained (the machine is reused): an all-zero snapshot, then one event per switch that
     # forces the state that snapshot implies.  Afterwards both the SwitchController and any snapshot cache a changed
@@ -892,10 +1365,12 @@ def coq_fastsw(case, out):
     m = coqlist("(%d, (%s, %d))" % (n, blit(inv), st) for n, inv, st in out["init"])
     ops = coqlist("(FSnap %s)" % zlist(_bits(o[1])) if o[0] == "sa" else
                   "(%s %d)" % ("FClosed" if o[0] == "closed" else "FOpen", o[1]) for o in case["ops"])
-    return "((%s, %s), %s)" % (m, ops, coqlist(zlist(t) for t in out["trace"]))
+    return "(mk_fs %s %s %s)" % (m, ops, coqlist(zlist(t) for t in out["trace"]))
 
 
 def oracle_fastsw(case, out):
+    if out["err"] and "did not boot" in out["err"]:
+        return [{"sig": "fast-machine-does-not-boot", "what": out["err"]}]
     if out["err"]:
         return [{"sig": "fast-switch-report-exception", "what": "handling a switch report raised " + out["err"]}]
     want = {n: st for n, inv, st in out["init"]}
@@ -946,17 +1421,346 @@ def describe_fastsw(case):
     return "snapshots=%d%s" % (len(sas), " repeated" if rep else "")
 
 
-HDR_FASTSW = "From C14 Require Import Crc Model.\nDefinition run := fastsw_run.\nDefinition out_eqb := fastsw_out_eqb.\n"
+HDR_FASTSW = ("From C14 Require Import Crc Model.\nDefinition run := fastsw_run.\nDefinition out_eqb := fastsw_out_eqb.\n"
+              "Definition mk_fs (m : fsw) (ops : list fop) (tr : list (list Z)) := ((m, ops), tr).\n")
+
+
+# ================================================================================================
+# FAST switch reports END TO END from bytes (suite `fastbytes`): a stream of SA: snapshots, -L:/L: events, messages
+# that are not reports (ignored / unknown / other processors) and reports whose header was corrupted, cut into
+# arbitrary reads and possibly truncated, through the real parse_incoming_raw_bytes of the booted Neuron machine.
+FB_OTHER = ["WD:P", "TL:P", "XX:F", "!B:00", "ZZ:1", "A", "+L:0B", "TA:0E,FFFFFFFFFFFFFFFFFFFFFFFFFFFF", "-M:05", "/K:05",
+            "-L", "SA"]
+
+
+def _fb_msg(op):
+    if op[0] == "sa":
+        return "SA:%02X,%s" % (len(op[1]), bytes(op[1]).hex().upper())
+    if op[0] in ("closed", "open"):
+        return "%sL:%02X" % ("-" if op[0] == "closed" else "/", op[1])
+    return op[1]
+
+
+def gen_fastbytes(rng, tier, i):
+    ops = []
+    base = gen_fastsw(rng, tier, i)["ops"]
+    for op in base:
+        r = rng.random()
+        if r < 0.12:
+            ops.append(["other", rng.choice(FB_OTHER)])
+        if r > 0.9:
+            # a report whose first header byte was hit by noise: no longer a report, must change nothing
+            m = _fb_msg(op)
+            ops.append(["other", rng.choice("+*TQ") + m[1:]])
+        else:
+            ops.append(op)
+    stream = b"".join(_fb_msg(o).encode() + b"\r" for o in ops)
+    if rng.random() < 0.3:
+        stream = stream[:rng.randrange(len(stream) + 1)]          # cut anywhere
+    cuts = sorted(set(rng.randrange(len(stream) + 1) for _ in range(rng.choice([0, 1, 2, 4, 8, 20]))))
+    if rng.random() < 0.06 and len(stream) < 120:
+        cuts = list(range(1, len(stream)))
+    chunks, prev = [], 0
+    for c in cuts + [len(stream)]:
+        if c > prev:
+            chunks.append(list(stream[prev:c]))
+            prev = c
+    return {"chunks": chunks}
+
+
+def run_fastbytes(case):
+    fastsw_init()
+    if "boot_error" in _FS:
+        return {"init": [], "trace": [], "err": _FS["boot_error"], "buf": []}
+    comm, sws = _FS["comm"], _FS["sws"]
+    try:
+        comm.received_msg = b""
+        comm.parse_incoming_raw_bytes(b"SA:%02X,%s\r" % (SA_BYTES, b"00" * SA_BYTES))
+        for sw in sws:
+            comm.parse_incoming_raw_bytes(b"%sL:%02X\r" % (b"-" if sw.invert else b"/", sw.hw_switch.number))
+    except Exception as e:          # noqa
+        return {"init": [], "trace": [], "err": "baseline: %s: %s" % (type(e).__name__, e), "buf": []}
+    init = [[sw.hw_switch.number, bool(sw.invert), int(sw.state)] for sw in sws]
+    trace, err = [], None
+    for ch in case["chunks"]:
+        try:
+            comm.parse_incoming_raw_bytes(bytes(ch))
+        except Exception as e:      # noqa
+            err = "%s: %s" % (type(e).__name__, e)
+            break
+        trace.append(_fs_states())
+    buf = list(comm.received_msg)
+    comm.received_msg = b""
+    try:
+        _FS["rig"].machine.events.event_queue.clear()
+    except Exception:               # noqa
+        pass
+    return {"init": init, "trace": trace, "err": err, "buf": buf}
+
+
+def coq_fastbytes(case, out):
+    if out["err"]:
+        return None
+    m = coqlist("(%d, (%s, %d))" % (n, blit(inv), st) for n, inv, st in out["init"])
+    return "(mk_fb %s %s %s)" % (m, coqlist(zlist(c) for c in case["chunks"]), coqlist(zlist(t) for t in out["trace"]))
+
+
+def oracle_fastbytes(case, out):
+    if out["err"] and "did not boot" in out["err"]:
+        return [{"sig": "fast-machine-does-not-boot", "what": out["err"]}]
+    if out["err"]:
+        return [{"sig": "fast-switch-report-exception", "what": "handling received bytes raised " + out["err"]}]
+    want = {n: st for n, inv, st in out["init"]}
+    inv = {n: i for n, i, st in out["init"]}
+    order = [n for n, _, _ in out["init"]]
+    pending = b""
+    for k, (ch, got) in enumerate(zip(case["chunks"], out["trace"])):
+        pending += bytes(ch)
+        while b"\r" in pending:
+            msg, pending = pending.split(b"\r", 1)
+            t = msg.decode("latin1")
+            if t.startswith("SA:") and t.count(",") == 1:
+                bits = _bits(bytes.fromhex(t.split(",")[1]))
+                for n in order:
+                    want[n] = (1 if inv[n] else 0) ^ bits[n]
+            elif t[:3] in ("-L:", "/L:") and len(t) > 3:
+                n = int(t[3:], 16)
+                if n in want:
+                    want[n] = 1 if t[0] == "-" else 0
+        if got != [want[n] for n in order]:
+            return [{"sig": "fast-bytes-switch-state-not-last-report",
+                     "what": "after read #%d the SwitchController state differs from the last complete report per switch "
+                             "(incomplete, non-report and corrupted messages must change nothing)" % k}]
+    if out["buf"] != list(pending):
+        return [{"sig": "fast-bytes-carry-over", "what": "bytes carried over differ from the incomplete last message"}]
+    return []
+
+
+def shrink_fastbytes(case):
+    ch = case["chunks"]
+    for i in range(len(ch) - 1):
+        yield {"chunks": ch[:i] + [ch[i] + ch[i + 1]] + ch[i + 2:]}
+    stream = bytes(sum(ch, []))
+    msgs = stream.split(b"\r")
+    for i in range(len(msgs)):
+        rest = b"\r".join(msgs[:i] + msgs[i + 1:])
+        if rest:
+            yield {"chunks": [list(rest)]}
+
+
+def nontrivial_fastbytes(case, out):
+    s = bytes(sum(case["chunks"], []))
+    return len(case["chunks"]) > 1 and b"SA:" in s and b"L:" in s
+
+
+def describe_fastbytes(case):
+    n = len(case["chunks"])
+    return "reads=%s" % ("1" if n == 1 else "2-5" if n <= 5 else ">5")
+
+
+HDR_FASTBYTES = ("From C14 Require Import Crc Model Links.\nDefinition run := faste2e_run.\nDefinition out_eqb := fastsw_out_eqb.\n"
+                 "Definition mk_fb (m : fsw) (chunks tr : list (list Z)) := ((m, chunks), tr).\n")
+
+
+# ================================================================================================
+# header tables of ALL FAST processors (suite `route`): bytes -> parse_incoming_raw_bytes -> _dispatch_incoming_msg ->
+# which message processor is called with which payload (processors replaced by recorders, table keys untouched), and
+# PKONE _parse_msg's messages_in_flight / send_ready bookkeeping.
+ROUTE_KINDS = ["PNeuron", "PNano", "PRetro", "PExp", "PDmd", "PSeg", "PAud", "PRgb", "PEmu"]
+# independent statement of the expected tables (FAST serial protocol as used by the communicators)
+_NET = ["XX:", "ID:", "SA:", "CH:", "!B:", "\x11\x11!", "NN:"]
+ROUTE_TABLE = {
+    "PNeuron": (_NET + ["DL:", "SL:", "/L:", "-L:"], ["WD:P", "TL:P"]),
+    "PNano": (_NET + ["DN:", "SN:", "/N:", "-N:"], ["WD:P", "TN:P"]),
+    "PRetro": (_NET + ["DL:", "SL:", "/L:", "-L:"], ["WD:P", "TL:P", "L1:P", "GI:P"]),
+    "PExp": (["XX:", "ID:", "BR:"], ["XX:F"]),
+    "PDmd": (["XX:", "ID:"], []), "PSeg": (["XX:", "ID:"], []), "PEmu": (["XX:", "ID:"], []),
+    "PAud": (["XX:", "ID:"], ["AV:", "AS:", "AH:", "AM:"]),
+    "PRgb": (["XX:", "ID:", "!B:"], ["RX:P"]),
+}
+ROUTE_MSGS = ["ID:NET FP-CPU-2000  2.06", "ID:EXP FP-EXP-0201  0.11", "XX:F", "XX:U", "WD:P", "TL:P", "TN:P", "L1:P", "GI:P",
+              "RX:P", "AV:", "AV:0A", "AS:", "AM:", "AH:", "SA:0E,2900", "CH:2000,FF", "!B:00", "!B:02", "\x11\x11!", "NN:00,x",
+              "DL:P", "DL:00,81,00", "SL:P", "SL:0B,01", "DN:P", "SN:P", "-L:0B", "/L:0B", "-N:0B", "/N:0B", "BR:P", "BR:F",
+              "A", "", "ZZ:1", "TL:1", "WD:F", "XX:", "ID:"]
+
+
+def _route_cls(kind):
+    from mpf.platforms.fast.communicators import net_neuron, net_nano, net_retro, exp, dmd, seg, aud, rgb, emu
+    return {"PNeuron": ("net", net_neuron.FastNetNeuronCommunicator), "PNano": ("net", net_nano.FastNetNanoCommunicator),
+            "PRetro": ("net", net_retro.FastNetRetroCommunicator), "PExp": ("exp", exp.FastExpCommunicator),
+            "PDmd": ("dmd", dmd.FastRgbDmdCommunicator), "PSeg": ("seg", seg.FastSegCommunicator),
+            "PAud": ("aud", aud.FastAudCommunicator), "PRgb": ("rgb", rgb.FastRgbCommunicator),
+            "PEmu": ("emu", emu.FastEmuCommunicator)}[kind]
+
+
+def gen_route(rng, tier, i):
+    if rng.random() < 0.2:
+        n = rng.randint(1, 8)
+        stream = []
+        for _ in range(n):
+            stream += [b for b in rng.choice(PKONE_MSGS).encode() if b != 69] + [69]
+        if rng.random() < 0.3:
+            stream = stream[:rng.randrange(len(stream) + 1)]
+        kind = "pkone"
+        extra = {"n": rng.choice([0, 1, 2, 3, 5, 9]), "mx": rng.choice([0, 1, 2, 10])}
+    else:
+        kind = rng.choice(ROUTE_KINDS)
+        ign = ROUTE_TABLE[kind][1]
+        # the writer is paused until this header before the reads: an IGNORED message must not lift the pause
+        if ign and rng.random() < 0.5:
+            pause = rng.choice(ign)
+        else:
+            pause = rng.choice(["WD:P", "TL:P", "TN:P", "XX:F", "ID:", "SA:", "DL:P", "SL:P", "AV:", "RX:P", "BR:P", "L1:P"])
+        near = ign + [pause, pause[:3] + "1", pause[:2]]
+        stream = []
+        for _ in range(rng.randint(1, 8)):
+            stream += list((rng.choice(near) if rng.random() < 0.25 else rng.choice(ROUTE_MSGS)).encode()) + [13]
+        if rng.random() < 0.25:
+            stream = stream[:rng.randrange(len(stream) + 1)]
+        extra = {"pause": pause}
+    cuts = sorted(set(rng.randrange(len(stream) + 1) for _ in range(rng.choice([0, 1, 2, 4, 8, 20]))))
+    chunks, prev = [], 0
+    for c in cuts + [len(stream)]:
+        if c > prev:
+            chunks.append(stream[prev:c])
+            prev = c
+    return dict(extra, kind=kind, chunks=chunks)
+
+
+def _route_run(case, chunks):
+    import logging
+    from unittest.mock import MagicMock
+    if case["kind"] == "pkone":
+        from mpf.platforms.pkone.pkone_serial_communicator import PKONESerialCommunicator
+        c = PKONESerialCommunicator.__new__(PKONESerialCommunicator)
+        c.received_msg = b""
+        c.messages_in_flight = case["n"]
+        c.max_messages_in_flight = case["mx"]
+        c.read_task = MagicMock()
+        ready = []
+        c.send_ready = MagicMock()
+        c.send_ready.set = lambda: ready.append(1)
+        c.log = logging.getLogger("c14.pkone")
+        c.log.disabled = True
+        c.platform = MagicMock()
+        err = None
+        try:
+            for ch in chunks:
+                c._parse_msg(bytes(ch))
+        except Exception as e:      # noqa
+            err = type(e).__name__
+        return {"calls": [], "dead": err, "n": c.messages_in_flight, "ready": bool(ready), "nrw": False, "resumed": False}
+    name, cls = _route_cls(case["kind"])
+    platform = MagicMock()
+    platform.machine.is_shutting_down = False
+    platform.debug = False
+    c = cls(platform, name, {"debug": False, "watchdog": None, "port": ["x"], "baud": 1, "io_loop": {}})
+    c.log = logging.getLogger("c14.route")
+    c.log.disabled = True
+    c.port_debug = False
+    c.ignore_decode_errors = False
+    calls = []
+    for h in list(c.message_processors):
+        c.message_processors[h] = lambda payload, h=h: calls.append([list(h.encode()), list(payload.encode())])
+    dead = None
+    c.pause_sending(case["pause"])
+    c.no_response_waiting.clear()
+    for ch in chunks:
+        try:
+            c.parse_incoming_raw_bytes(bytes(ch))
+        except Exception as e:      # noqa
+            dead = type(e).__name__
+            break
+    return {"calls": calls, "dead": dead, "n": 0, "ready": False, "nrw": bool(c.no_response_waiting.is_set()),
+            "resumed": not c.pause_sending_flag.is_set()}
+
+
+def run_route(case):
+    return {"split": _route_run(case, case["chunks"]), "whole": _route_run(case, [sum(case["chunks"], [])])}
+
+
+def coq_route(case, out):
+    o = out["split"]
+    if o["dead"] is not None:
+        return None
+    ch = coqlist(zlist(c) for c in case["chunks"])
+    inp = ("(R2Pkone %d %d %s)" % (case["n"], case["mx"], ch) if case["kind"] == "pkone"
+           else "(R2Fast %s %s %s)" % (case["kind"], zlist(case["pause"].encode()), ch))
+    return ("(%s, {| r2_calls := %s; r2_dead := false; r2_n := %d; r2_ready := %s; r2_resumed := %s; r2_nrw := %s |})" % (
+        inp, coqlist("(%s, %s)" % (zlist(h), zlist(p)) for h, p in o["calls"]), o["n"], blit(o["ready"]),
+        blit(o["resumed"]), blit(o["nrw"])))
+
+
+def oracle_route(case, out):
+    a, b = out["split"], out["whole"]
+    if a["dead"] or b["dead"]:
+        return [{"sig": "route-exception", "what": "reader raised %s" % (a["dead"] or b["dead"])}]
+    if (a["calls"], a["n"], a["ready"], a["resumed"], a["nrw"]) != (b["calls"], b["n"], b["ready"], b["resumed"], b["nrw"]):
+        return [{"sig": "route-chunking-dependent", "what": "processor calls / in-flight counter differ between split and unsplit delivery"}]
+    stream = bytes(sum(case["chunks"], []))
+    if case["kind"] == "pkone":
+        k = stream.count(b"E")
+        n, ready = case["n"], False
+        for _ in range(k):
+            n -= 1
+            ready = ready or n <= case["mx"]
+            n = max(n, 0)
+        if (a["n"], a["ready"]) != (n, ready):
+            return [{"sig": "pkone-inflight-wrong", "what": "messages_in_flight %r / send_ready %r, expected %r / %r" % (a["n"], a["ready"], n, ready)}]
+        return []
+    hdrs, ign = ROUTE_TABLE[case["kind"]]
+    want = []
+    for m in stream.split(b"\r")[:-1]:
+        t = m.decode()
+        if t and t not in ign and t[:3] in hdrs:
+            want.append([list(t[:3].encode()), list(t[3:].encode())])
+    if a["calls"] != want:
+        return [{"sig": "fast-route-wrong-processor", "what": "%s: message processors called %r, expected %r" % (case["kind"], a["calls"][:4], want[:4])}]
+    msgs = [m.decode() for m in stream.split(b"\r")[:-1] if m]
+    resumed = any(t not in ign and case["pause"].startswith(t[:3]) for t in msgs)
+    if a["resumed"] != resumed:
+        return [{"sig": "fast-route-wrong-resume",
+                 "what": "%s paused until %r: sending %s although the messages received say otherwise (an ignored message never "
+                         "lifts the pause; any other message whose first three characters start the header does)"
+                         % (case["kind"], case["pause"], "resumed" if a["resumed"] else "still paused")}]
+    if a["nrw"] != bool(want):
+        return [{"sig": "fast-route-wrong-release", "what": "%s: no_response_waiting is %r after %d processed messages" % (case["kind"], a["nrw"], len(want))}]
+    return []
+
+
+def shrink_route(case):
+    ch = case["chunks"]
+    for i in range(len(ch)):
+        yield dict(case, chunks=ch[:i] + ch[i + 1:])
+    for i in range(len(ch) - 1):
+        yield dict(case, chunks=ch[:i] + [ch[i] + ch[i + 1]] + ch[i + 2:])
+
+
+def nontrivial_route(case, out):
+    return len(case["chunks"]) > 1 and (case["kind"] == "pkone" or len(out["split"]["calls"]) >= 1)
+
+
+def describe_route(case):
+    return case["kind"]
+
+
+HDR_ROUTE = "From C14 Require Import Crc Model Links Route2.\nDefinition run := route2_run.\nDefinition out_eqb := route2_out_eqb.\n"
 
 SUITES = [
     Suite("opp", gen_opp, run_opp, HDR_OPP, coq_opp, oracle_opp, shrink_opp, nontrivial_opp,
-          {"quick": 2000, "thorough": 120000}, describe=describe_opp, shard=200),
+          {"quick": 1200, "thorough": 80000}, describe=describe_opp, shard=150),
     Suite("reader", gen_reader, run_reader, HDR_READER, coq_reader, oracle_reader, shrink_reader, nontrivial_reader,
-          {"quick": 1500, "thorough": 60000}, describe=describe_reader, shard=400),
+          {"quick": 1000, "thorough": 40000}, describe=describe_reader, shard=250),
     Suite("writer", gen_writer, run_writer, HDR_WRITER, coq_writer, oracle_writer, shrink_writer, nontrivial_writer,
-          {"quick": 800, "thorough": 30000}, shard=400),
+          {"quick": 500, "thorough": 20000}, shard=125),
     Suite("fastsw", gen_fastsw, run_fastsw, HDR_FASTSW, coq_fastsw, oracle_fastsw, shrink_fastsw, nontrivial_fastsw,
-          {"quick": 1200, "thorough": 40000}, worker_init=fastsw_init, describe=describe_fastsw, shard=300),
+          {"quick": 600, "thorough": 25000}, worker_init=fastsw_init, describe=describe_fastsw, shard=150),
+    Suite("fastbytes", gen_fastbytes, run_fastbytes, HDR_FASTBYTES, coq_fastbytes, oracle_fastbytes, shrink_fastbytes,
+          nontrivial_fastbytes, {"quick": 400, "thorough": 8000}, worker_init=fastsw_init, describe=describe_fastbytes, shard=100),
+    Suite("route", gen_route, run_route, HDR_ROUTE, coq_route, oracle_route, shrink_route, nontrivial_route,
+          {"quick": 500, "thorough": 12000}, describe=describe_route, shard=125),
+    Suite("flow", gen_flow, run_flow, HDR_FLOW, coq_flow, oracle_flow, shrink_flow, nontrivial_flow,
+          {"quick": 600, "thorough": 15000}, describe=describe_flow, shard=150),
     Suite("retry", gen_retry, run_retry, None, None, oracle_retry, None, None,
           {"quick": 40, "thorough": 400}),
 ]
